@@ -184,6 +184,42 @@ func c10Unit(j *Job, u *JobUnit) error {
 					break
 				}
 			}
+			// every query parameter with an unconvertible value (singular and repeated, renamed or not)
+			for _, q := range m.Query {
+				fd := md.Fields().ByName(protoName(q.Field))
+				if fd == nil || fd.Kind() == protoreflect.StringKind || fd.Kind() == protoreflect.EnumKind || fd.Kind() == protoreflect.BytesKind {
+					continue
+				}
+				tg := validTarget
+				sep := "?"
+				if strings.Contains(tg, "?") {
+					sep = "&"
+				}
+				// for a repeated parameter the bad element comes after a good one
+				if fd.IsList() {
+					tg += sep + queryEscape(q.Name) + "=" + queryEscape(scalarString(fd, zeroValue(fd))) + "&" + queryEscape(q.Name) + "=zz"
+				} else {
+					// drop an existing occurrence of the parameter, then add the bad one
+					if i := strings.Index(tg, "?"); i >= 0 {
+						var keep []string
+						for _, kv := range strings.Split(tg[i+1:], "&") {
+							if !strings.HasPrefix(kv, queryEscape(q.Name)+"=") {
+								keep = append(keep, kv)
+							}
+						}
+						tg = tg[:i]
+						if len(keep) > 0 {
+							tg += "?" + strings.Join(keep, "&")
+						}
+						sep = "?"
+						if len(keep) > 0 {
+							sep = "&"
+						}
+					}
+					tg += sep + queryEscape(q.Name) + "=zz"
+				}
+				sources = append(sources, errSource{key: "query_unconvertible(" + q.Field + ")", target: tg, handler: okHandler, status: 400, fields: []string{q.Field}})
+			}
 			for _, q := range m.Query {
 				if q.Required {
 					c := proto.Clone(valid)
